@@ -371,6 +371,7 @@ type FuncContract struct {
 	Requires []*Clause
 	Ensures  []*Clause
 	Invs     []*Clause
+	Applies  []*Clause // lemma/axiom instantiations: Loop 0 = at entry, Loop k = at the start of each iteration of loop k
 	Decr     []*Clause
 	Pure     bool // no heap effects
 	Trusted  bool
@@ -574,10 +575,18 @@ func (cs *Contracts) parseLines(pkgPath string, lines, wheres []string) {
 				continue
 			}
 			cl.Loop = k
-			if kind == "invariant" {
+			switch kind {
+			case "invariant":
 				cur.Invs = append(cur.Invs, cl)
-			} else {
+			case "apply":
+				cur.Applies = append(cur.Applies, cl)
+			default:
 				cur.Decr = append(cur.Decr, cl)
+			}
+		case "apply":
+			cl := mkClause(word)
+			if cl != nil && cur != nil {
+				cur.Applies = append(cur.Applies, cl)
 			}
 		case "invariant":
 			cl := mkClause(word)
